@@ -8,10 +8,11 @@ RELATED = {  # property -> checks to try (own check first)
  "C05": ["C05", "C06"], "C06": ["C06", "C07"], "C07": ["C07", "C08"], "C08": ["C08"], "C09": ["C09"],
  "C10": ["C10"], "C11": ["C11", "C09", "C13"], "C12": ["C12", "C09"], "C13": ["C13", "C09"], "C14": ["C14"],
  "C15": ["C15"], "C16": ["C16"], "C17": ["C17"], "C18": ["C18", "C04"], "C19": ["C19", "C06"], "C20": ["C20"]}
+ROOT = os.environ.get("MUTROOT", "/tmp/mut")
 conf = json.load(open(sys.argv[1] if len(sys.argv) > 1 else "/tmp/mut/confirm.json"))
 out = {}
-if os.path.exists("/tmp/mut/matrix.json"):
-    out = json.load(open("/tmp/mut/matrix.json"))
+if os.path.exists(ROOT + "/matrix.json"):
+    out = json.load(open(ROOT + "/matrix.json"))
 for mid, c in sorted(conf.items()):
     if not c.get("ok") or mid in out:
         continue
@@ -35,4 +36,4 @@ for mid, c in sorted(conf.items()):
     shutil.rmtree(wt, ignore_errors=True)
     shutil.rmtree(env["VERIF_SCRATCH_OUT"], ignore_errors=True)
     print(mid, {k: (v["rc"], v["violations"]) for k, v in res.items()}, flush=True)
-    json.dump(out, open("/tmp/mut/matrix.json", "w"), indent=1)
+    json.dump(out, open(ROOT + "/matrix.json", "w"), indent=1)
